@@ -212,6 +212,15 @@ theorem multiCreds_error_from_first_nonempty (fs : List (String → Ref → Res)
 
 /-! ### configured headers: only to the host they were configured for -/
 
+/-- `RegistryHostsFromConfig`: the `i`-th returned host carries a header table only if it is
+mirror `i` and that mirror was configured with one — never the table of another mirror, and the
+registry of the reference itself (the last host) carries none. -/
+theorem config_headers_stay_with_their_mirror (mirrors : List Bool) (i j : Nat)
+    (h : (hostHeaders mirrors)[i]? = some (some j)) : j = i ∧ mirrors[i]? = some true := by
+  have := hostHeadersFrom_spec mirrors 0 i j h
+  simpa using this
+
+
 /-- Resolve a blob (`newHTTPFetcher` over all configured hosts, falling through on failures),
 then run ANY history of ReadAt/Cache, Check and Refresh operations against ANY server script:
 every request that carries the header set configured for registry host `j` goes to host `j`
